@@ -18,6 +18,7 @@ use crate::tape::Tape;
 pub struct Dispatch;
 impl Prop for Dispatch {
     type Case = Case;
+    crate::prog_shrink!();
     fn name(&self) -> String {
         "C04/dispatch".into()
     }
@@ -56,6 +57,7 @@ impl Prop for Dispatch {
 pub struct TableLayout;
 impl Prop for TableLayout {
     type Case = l2c::Case;
+    crate::prog_shrink!();
     fn name(&self) -> String {
         "C04/table-layout".into()
     }
